@@ -39,6 +39,9 @@ type C18Case struct {
 	Cuts      []int    `json:"cuts,omitempty"`
 	Ops       []ReadOp `json:"ops"`
 	Back      Blob     `json:"back,omitempty"` // what the consumer writes raw after its reply / request
+	// Hangup (client side, kernel socket): the peer sends its bytes and closes at once; the client keeps writing raw
+	// data until a Write fails for good, and only then reads. What the peer sent before it hung up is still there.
+	Hangup bool `json:"hangup,omitempty"`
 }
 
 // checkReads runs the cursor model over the results; the last result is the drain.
@@ -286,6 +289,11 @@ func execC18Client(c C18Case, bound time.Duration) (bool, error) {
 				break
 			}
 		}
+		if c.Hangup {
+			srv.Close()
+			gotBack <- snapshot()
+			return
+		}
 		waitFor(func(b []byte) bool { return len(b)-(bytes.IndexByte(b, 0)+1) >= len(c.Back) })
 		gotBack <- snapshot()
 	}()
@@ -303,7 +311,18 @@ func execC18Client(c C18Case, bound time.Duration) (bool, error) {
 	if d := JSONDiff([]byte(`{"upgraded":true}`), out); d != "" {
 		return false, fmt.Errorf("client side: upgrade reply parameters: %s", d)
 	}
-	if len(c.Back) > 0 {
+	if c.Hangup {
+		// write until it fails for good (the peer has closed or is about to); a write error concerns the write direction only
+		chunk := bytes.Repeat([]byte("u"), 64<<10)
+		for i := 0; i < 512; i++ {
+			if _, werr := rwc.Write(ctx, chunk); werr != nil {
+				if isTimeoutErr(werr) {
+					return false, fmt.Errorf("client side: a raw Write to a peer that has hung up did not fail within %v", bound)
+				}
+				break
+			}
+		}
+	} else if len(c.Back) > 0 {
 		if _, werr := rwc.Write(ctx, c.Back); werr != nil {
 			return false, fmt.Errorf("client side: raw Write on the upgraded connection failed: %v", werr)
 		}
@@ -340,7 +359,14 @@ func execC18Client(c C18Case, bound time.Duration) (bool, error) {
 	res = append(res, drain)
 	d, mixed := checkReads(c.Tail, c.Ops, res)
 	if d != "" {
+		if c.Hangup {
+			return mixed, fmt.Errorf("client side (the peer sent its bytes and hung up, a raw Write failed, then the client read): %s", d)
+		}
 		return mixed, fmt.Errorf("client side: %s", d)
+	}
+	if c.Hangup {
+		<-gotBack
+		return mixed, nil
 	}
 	select {
 	case req := <-gotBack:
@@ -425,6 +451,9 @@ func genC18(t *rapid.T) C18Case {
 	if rapid.Bool().Draw(t, "back") {
 		c.Back = rapid.SliceOfN(rapid.Byte(), 1, 200).Draw(t, "backdata")
 	}
+	if c.Side == "client" && c.Transport == "unix" && rapid.IntRange(0, 2).Draw(t, "hangup") == 0 {
+		c.Hangup = true
+	}
 	return c
 }
 
@@ -452,6 +481,9 @@ func checkC18(c C18Case, st *Stats) error {
 	}
 	if mixed {
 		labels = append(labels, "raw-read-after-frame-read")
+	}
+	if c.Hangup {
+		labels = append(labels, "peer-hung-up+write-failed-before-reading")
 	}
 	st.Case(HashOf(c), mixed && len(c.Tail) > 0 && (coalesced || len(c.Cuts) > 0 && c.Cuts[0] > 64), func() interface{} { return c }, labels...)
 	return err
@@ -492,6 +524,12 @@ func TestC18Enum(t *testing.T) {
 					cases = append(cases, C18Case{Side: side, Transport: tr, Tail: tail, Cuts: cuts, Ops: s, Back: Blob("raw-back\x00x")})
 				}
 			}
+		}
+	}
+	long := append(append([]byte(nil), tail...), bytes.Repeat([]byte("0123456789abcdef"), 1024)...) // beyond the read buffer: part of it is still in the kernel
+	for _, cuts := range [][]int{nil, {4096}} {
+		for _, s := range seqs {
+			cases = append(cases, C18Case{Side: "client", Transport: "unix", Tail: long, Cuts: cuts, Ops: s, Hangup: true})
 		}
 	}
 	shard, nshards := Shard()
